@@ -144,10 +144,37 @@ TRUST_PATTERNS = [r'external_body', r'assume_specification', r'\bassume\s*\(', r
                   r'#\[verifier::external\]', r'\baxiom\b']
 
 
+def unit_preludes(unit):
+    out = []
+    for u in [load_unit(d) for d in unit.DEPS] + [unit]:
+        for p in u.PRELUDE:
+            if p not in out:
+                out.append(p)
+    return out
+
+
+def prelude_text(names):
+    """each prelude file becomes its own module (so that the root module's `broadcast use` of prelude axioms is not a
+    self-reference); everything is re-exported into the root"""
+    hdr = read(os.path.join(HERE, 'prelude', '_crate_header.rs'))
+    uses = ''.join(l + '\n' for l in hdr.splitlines() if l.startswith('use '))
+    out = [hdr]
+    # macro_rules must be textually before the modules that use them
+    for p in names:
+        body = read(os.path.join(HERE, 'prelude', p + '.rs'))
+        macros = ''.join(l + '\n' for l in body.splitlines() if l.startswith('macro_rules!'))
+        body = ''.join(l + '\n' for l in body.splitlines() if not l.startswith('macro_rules!') and not l.startswith('use '))
+        out.append(macros)
+        out.append('pub mod p_%s {\n%suse super::*;\n%s}\npub use p_%s::*;\n' % (p, uses, body, p))
+        for m in re.finditer(r'^// reexport: (.*)$', body, re.M):  # names that would clash with vstd globs
+            for nm in m.group(1).split(','):
+                out.append('pub use p_%s::%s;\n' % (p, nm.strip()))
+    return ''.join(out)
+
+
 def assemble_unit(unit, src):
     b = Bundle()
-    for p in unit.PRELUDE:
-        b.add_text(read(os.path.join(HERE, 'prelude', p + '.rs')), 'prelude')
+    b.add_text(prelude_text(unit_preludes(unit)), 'prelude')
     metas = []
     b.add_text('verus! {\n', 'glue')
     # dependency units: contract only (callers are checked against the callee's contract, not its body)
@@ -164,8 +191,23 @@ def assemble_unit(unit, src):
     segs, m = emit_items(src, unit.ITEMS)
     b.add(segs)
     b.add_text('} // verus!\n', 'glue')
-    for sp in unit.SPECS:
-        b.add_text(read(os.path.join(HERE, 'specs', sp)), 'spec')
+    done = set()
+    for u in [load_unit(d) for d in unit.DEPS] + [unit]:
+        for sp in u.SPECS:
+            if sp in done:
+                continue
+            done.add(sp)
+            if sp.startswith('gen:'):
+                b.add_text(u.GENERATED_SPECS[sp[4:]], 'spec')
+            else:
+                body = read(os.path.join(HERE, 'specs', sp))
+                if body.startswith('// module'):
+                    # own module: the root's module-level `broadcast use` may then name its lemmas without a cycle
+                    hdr = read(os.path.join(HERE, 'prelude', '_crate_header.rs'))
+                    uses = ''.join(l + '\n' for l in hdr.splitlines() if l.startswith('use '))
+                    nm = 's_' + sp.replace('.rs', '')
+                    body = 'pub mod %s {\n%suse super::*;\n%s}\npub use %s::*;\n' % (nm, uses, body, nm)
+                b.add_text(body, 'spec')
     b.add_text('fn main() {}\n', 'glue')
     metas += [dict(x, unit=unit.NAME) for x in m]
     return b, metas
@@ -180,6 +222,9 @@ def enumerate_obligations(unit):
         base = '%s.%s' % (unit.NAME, it.id)
         for name, _e in it.ensures:
             obs.append(dict(id='%s.ensures.%s' % (base, name), item=it.id, kind='ensures', props=list(it.props)))
+        for k, spec in it.closures.items():
+            for name, _e in spec.get('ensures', []):
+                obs.append(dict(id='%s.ensures.closure%d.%s' % (base, k, name), item=it.id, kind='ensures', props=list(it.props)))
         for k, spec in it.loops.items():
             for name, _e in spec.get('invariant', []):
                 obs.append(dict(id='%s.invariant.loop%d.%s' % (base, k, name), item=it.id, kind='invariant',
@@ -277,6 +322,9 @@ def map_failures(unit, res, linemap):
                 h2 = seg_at(linemap, ex[0]['line_start'])
                 if h2 and h2[0].src_file:
                     f['at_exit'] = '%s:%d' % (h2[0].src_file, h2[0].src_line + h2[1])
+        elif kind == 'ensures' and seg.region == 'closure-ensures':
+            f['obligation'] = '%s.ensures.%s' % (base, seg.clause)
+            f['props'] = list(it.props)
         elif kind == 'invariant' and seg.region == 'invariant':
             f['obligation'] = '%s.invariant.%s' % (base, seg.clause)
             f['props'] = list(it.props)
@@ -370,11 +418,10 @@ def run_canary(unit_names, scratch):
     """vacuity guard (iii): `ensures false` must FAIL against the union of preludes + specs"""
     preludes, specs = [], []
     for n in unit_names:
-        u = load_unit(n)
-        for p in u.PRELUDE:
+        for p in unit_preludes(load_unit(n)):
             if p not in preludes:
                 preludes.append(p)
-    text = ''.join(read(os.path.join(HERE, 'prelude', p + '.rs')) + '\n' for p in preludes)
+    text = prelude_text(preludes)
     text += 'verus! { proof fn verif_canary() ensures false {} }\nfn main() {}\n'
     path = os.path.join(scratch.build, 'canary.rs')
     with open(path, 'w') as f:
